@@ -61,6 +61,56 @@ fn body_store(len: usize, seq: Option<Vec<(usize, usize)>>) {
     stop(&store, 0);
 }
 
+/// (c) a selector subscription that is unsubscribed while actions selecting the SAME value are in
+/// flight: whatever is delivered (a late delivery after unsubscribe() is KF-1's business, not
+/// C16's) must still be free of consecutive duplicates and come from the notification stream
+fn body_unsub(values: Vec<usize>) {
+    let store = build_store(StoreCfg::new(1, 16, Pol::Block));
+    let _d = add_subscriber(&store, Arc::new(ScriptSub::new(9)), 9);
+    log(Ev::Call { op: "add_subscriber", a: 1 });
+    let sub = store.subscribe_with_selector(Sel, on_change);
+    log(Ev::Ret { op: "add_subscriber", a: 1, ok: true, st: vec![] });
+    let s2 = store.clone();
+    let vals = values.clone();
+    let h = verif_rt::thread::spawn_client("p0", move || {
+        for (pos, v) in vals.iter().enumerate() {
+            dispatch(&s2, Act::new(aid(pos, *v)));
+        }
+    });
+    let h2 = verif_rt::thread::spawn_client("unsub", move || {
+        unsubscribe(&*sub, 1);
+    });
+    let _ = h.join();
+    let _ = h2.join();
+    stop(&store, 0);
+}
+
+pub fn check_unsub(r: &ExecResult) -> Vec<Finding> {
+    let mut f = sanity(r);
+    let got: Vec<(u32, i64)> = cbs_of(r, "sel_change").map(|c| (c.act, c.x)).collect();
+    for w in got.windows(2) {
+        if w[0].1 == w[1].1 {
+            f.push(fnd("selector-fired-without-change", format!("selector callback delivered value {} twice in a row (actions {} and {}): {:?}", w[0].1, w[0].0, w[1].0, got)));
+            break;
+        }
+    }
+    // every delivery is caused by a notifying action with that value, in stream order
+    let p = pipe(r);
+    let stream: Vec<(u32, i64)> = p.order.iter().map(|a| (*a, (*a % 3) as i64)).collect();
+    if !is_subsequence(&got, &stream) {
+        f.push(fnd("selector-wrong-value-or-action", format!("selector deliveries {:?} are not drawn in order from the notification stream {:?}", got, stream)));
+    }
+    // the first notification it receives is always delivered
+    if let Some(first) = stream.first() {
+        let unsub_call = calls(r, "unsubscribe").map(|c| c.i).next().unwrap_or(usize::MAX);
+        let first_reduced = p.last_reduce_idx[&first.0];
+        if got.is_empty() && unsub_call > r.log.len() && first_reduced < unsub_call {
+            f.push(fnd("selector-missed-change", "nothing was delivered although the subscription stayed".into()));
+        }
+    }
+    f
+}
+
 pub fn check(r: &ExecResult) -> Vec<Finding> {
     let mut f = sanity(r);
     // reference: run-length de-duplication of the notification stream's selected values
@@ -112,6 +162,18 @@ pub fn scenarios(tier: Tier, seed: i64) -> Vec<Scenario> {
             bound: if len <= 3 { 1 } else { 0 },
             body: Arc::new(move || body_store(len, None)),
             check: Arc::new(check),
+        });
+    }
+    let unsub_seqs: Vec<Vec<usize>> = if tier == Tier::Quick { vec![vec![1, 1], vec![1, 2, 2]] } else { vec![vec![1, 1], vec![1, 2, 2], vec![2, 2, 2], vec![0, 1, 1, 0]] };
+    for seq in unsub_seqs {
+        let sq = seq.clone();
+        v.push(Scenario {
+            name: format!("C16/unsub/{:?}", seq),
+            params: "selector subscription unsubscribed by another thread while actions are in flight".into(),
+            opts: opts_elide(),
+            bound: if tier == Tier::Quick || seq.len() > 3 { 2 } else { 3 },
+            body: Arc::new(move || body_unsub(sq.clone())),
+            check: Arc::new(check_unsub),
         });
     }
     // sampling (labelled so): a few long pseudo-random sequences seeded by VERIF_SEED
